@@ -202,6 +202,11 @@ func (s *Spec) GoStageA(v GoVariant) map[string]string {
 			body.WriteString(txt[:idx+1])
 		}
 	}
+	if v.Defect == "embed-missing-file" {
+		// go list reports a ListError (pattern matches no files); the sources parse and type-check
+		body.WriteString("//go:embed no_such_help_file.txt\nvar helpText string\n\n")
+		head.WriteString("import _ \"embed\"\n\n")
+	}
 	if v.Defect == "ill-typed" {
 		body.WriteString("func illTyped() int { return \"not an int\" + undefinedName }\n\n")
 	}
@@ -210,6 +215,14 @@ func (s *Spec) GoStageA(v GoVariant) map[string]string {
 	}
 	if s.OnBounds {
 		fmt.Fprintf(&body, "func %s _onBounds(r any, begin, end Token) { }\n\n", recv)
+	}
+	switch v.Defect {
+	case "bad-build-constraint":
+		files["zz_constraint.go"] = "//go:build !(\n\npackage " + s.Pkg + "\n"
+	case "junk-last-go-file":
+		files["zz_notes.go"] = "TODO: remember to write the actions\n"
+	case "empty-last-go-file":
+		files["zz_notes.go"] = ""
 	}
 	if v.SplitFile != "" {
 		files[v.FileName] = head.String()
